@@ -191,6 +191,7 @@ impl Property for P {
             40 => part().prop_map(Some),
             6 => Just(None),
             1 => gen::long_text(mix).prop_map(Some),
+            1 => gen::scaled_text_and_width(mix, 1200).prop_map(|(t, _)| Some(t)),
         ];
         (part(), part(), b, gen::optspec(og), any::<bool>())
             .prop_map(|(a, a2, b, spec, by_ref)| {
